@@ -4,7 +4,7 @@ import json, os
 
 CLAIMS = {
  "C12": {
-  "text": "Decides: source routing of the access ops (ThisAddress / ThisContractAddress read the predicate / contract field of this_solution(); PredicateData* read this_solution().predicate_data; PredicateExists receives the whole set); checked range resolution (usize::try_from, checked_add, slice.get only, the popped words feed (value_ix, len) in the documented order); sibling encodings agree (the VM's and essential-sign's 33-byte public-key encodings have the same structure, recover pops id / 8 / 4 words and rebuilds the compact signature and digest, the 9-word signature layout); every SHA-256 user is new/update(input)/finalize; the PredicateExists pre-image order (len-prefixed slots, contract, predicate, big-endian bytes); five zero words on an unrecoverable signature. Partial claim: byte-length marshalling (pop_bytes rounding/truncation) and cryptographic answers are not decided. Also decided: byte operands (ceil(len/8) words, big-endian bytes in stack order, cut to len), VerifyEd25519 pop order / verify(key, data, signature) / pushed bit, and that every result of the range resolver is the checked sub-slice. The sign crate recovers a key exactly where secp256k1 does (acceptance tables), so the op and essential_sign agree on which signatures yield a key. pop_words hands over the top n words in stack order and removes them.",
+  "text": "Decides: source routing of the access ops (ThisAddress / ThisContractAddress read the predicate / contract field of this_solution(); PredicateData* read this_solution().predicate_data; PredicateExists receives the whole set); checked range resolution (usize::try_from, checked_add, slice.get only, the popped words feed (value_ix, len) in the documented order); sibling encodings agree (the VM's and essential-sign's 33-byte public-key encodings have the same structure, recover pops id / 8 / 4 words and rebuilds the compact signature and digest, the 9-word signature layout); every SHA-256 user is new/update(input)/finalize; the PredicateExists pre-image order (len-prefixed slots, contract, predicate, big-endian bytes); five zero words on an unrecoverable signature. Partial claim: byte-length marshalling (pop_bytes rounding/truncation) and cryptographic answers are not decided. Also decided: byte operands (ceil(len/8) words, big-endian bytes in stack order, cut to len), VerifyEd25519 pop order / verify(key, data, signature) / pushed bit, and that every result of the range resolver is the checked sub-slice. The sign crate recovers a key exactly where secp256k1 does (acceptance tables), so the op and essential_sign agree on which signatures yield a key. pop_words hands over the top n words in stack order and removes them. predicate_data fails only where a pop, the range, the lookup or the push fails; the 9th signature word is exactly the recovery id.",
   "note": "Trusted: sha2, secp256k1, ed25519-dalek.",
   "technique": "static analysis: provenance of call arguments against expected source fields, structural comparison of sibling encoders, call-sequence whitelists",
   "design_ref": "3/C12",
@@ -16,7 +16,7 @@ CLAIMS = {
   "design_ref": "3/C14",
  },
  "C18": {
-  "text": "Partial claim: round-trip equality over all values is value-level and NOT decided. Decided necessary conditions: big-endian pair and identity layouts of the four fixed-width converters and of Signature <-> [u8; 65]; every serde serializer/deserializer pair branches on is_human_readable with the same polarity and the same family (hex / sequence) on each side; predicate and mutation encoders, size helpers and decoders agree on offsets (linear forms), the list codec writes/reads the count first and advances by encode_size; node_edges is empty exactly for edge_start == MAX and otherwise a checked sub-range; the legacy field names (data, decision_variables) reach the same fields as the current names and only current names are written; Display/FromStr use encode_upper/decode with the same array length. Also decided: derived binary framing (every struct field written unconditionally in order; visit_seq reads one element per field in that order) and that list decoders stop exactly at the end of input. The predicate decoder returns only after reading all four parts; human-readable deserializers accept owned input. words <-> hex text both go through bytes_from_word / word_from_bytes and the hex crate.",
+  "text": "Partial claim: round-trip equality over all values is value-level and NOT decided. Decided necessary conditions: big-endian pair and identity layouts of the four fixed-width converters and of Signature <-> [u8; 65]; every serde serializer/deserializer pair branches on is_human_readable with the same polarity and the same family (hex / sequence) on each side; predicate and mutation encoders, size helpers and decoders agree on offsets (linear forms), the list codec writes/reads the count first and advances by encode_size; node_edges is empty exactly for edge_start == MAX and otherwise a checked sub-range; the legacy field names (data, decision_variables) reach the same fields as the current names and only current names are written; Display/FromStr use encode_upper/decode with the same array length. Also decided: derived binary framing (every struct field written unconditionally in order; visit_seq reads one element per field in that order) and that list decoders stop exactly at the end of input. The predicate decoder returns only after reading all four parts; human-readable deserializers accept owned input. words <-> hex text both go through bytes_from_word / word_from_bytes and the hex crate. Predicate::{encode,decode,encoded_size} forward their argument unchanged to the codec functions.",
   "note": "Trusted: hex, serde, postcard. Breaking any decided clause breaks a round trip; the converse is not claimed.",
   "technique": "static analysis: aggregate-element provenance (layouts), path-condition polarity pairing, symbolic linear forms of offsets, string-literal to field tables of derive-generated visitors",
   "design_ref": "3/C18",
@@ -28,13 +28,13 @@ CLAIMS = {
   "design_ref": "3/C19",
  },
  "C01": {
-  "text": "Partial claim. The behavioural equivalence with the graph reference semantics (exactly-once execution, numbering independence, concatenation order, gas/data-output equality) is NOT decided by static analysis. Decided clauses: graph validation (parent map, level order) dominates every site that can start a node program; an empty level while nodes remain (cycle) and invalid edge ranges are errors; every edge value used as a node index is compared with nodes.len(); the leaf interpretation table is exactly [1] -> satisfied, [2] -> data output of vm.memory, anything else -> unsatisfied, with leaf = node without edges and parents exporting (stack, memory); parent inputs are taken from the parent map in ascending order and each node runs the program of its own address. Deferral closure and the run-mode split are decided under C03. Also decided: the level-order bookkeeping per edge (in-degree = entries of the parent list, one decrement per edge of a finished parent, removal after scheduling), and that per-solution data (cross-pass cache, predicate, index, outputs, computed mutations) stays with its solution by index. The node-output maps only grow during the level loop; node_edges answers None for malformed ranges (table). Stack / Memory built from concatenated parent results are accepted exactly up to the VM limits; deferral is decided exactly (C15-R2/R3, C03-R3 re-evaluated).",
+  "text": "Partial claim. The behavioural equivalence with the graph reference semantics (exactly-once execution, numbering independence, concatenation order, gas/data-output equality) is NOT decided by static analysis. Decided clauses: graph validation (parent map, level order) dominates every site that can start a node program; an empty level while nodes remain (cycle) and invalid edge ranges are errors; every edge value used as a node index is compared with nodes.len(); the leaf interpretation table is exactly [1] -> satisfied, [2] -> data output of vm.memory, anything else -> unsatisfied, with leaf = node without edges and parents exporting (stack, memory); parent inputs are taken from the parent map in ascending order and each node runs the program of its own address. Deferral closure and the run-mode split are decided under C03. Also decided: the level-order bookkeeping per edge (in-degree = entries of the parent list, one decrement per edge of a finished parent, removal after scheduling), and that per-solution data (cross-pass cache, predicate, index, outputs, computed mutations) stays with its solution by index. The node-output maps only grow during the level loop; node_edges answers None for malformed ranges (table). Stack / Memory built from concatenated parent results are accepted exactly up to the VM limits; deferral is decided exactly (C15-R2/R3, C03-R3 re-evaluated). The deferred set is closed under descendants and the Effects flags are distinct single bits (C03-R5, C15-R1 re-evaluated).",
   "note": "These are necessary conditions of the property; breaking any of them changes verdicts. The sufficient direction is out of reach for this technique family.",
   "technique": "static analysis: dominance of validation over execution sites, return tables of the graph functions, match table of the leaf interpretation",
   "design_ref": "3/C01",
  },
  "C08": {
-  "text": "Decides the dispatch and the scalar operations, for which operator, operand order and operand type in MIR are the semantics: all 62 spec ops reach the handler of the reviewed dispatch table; comparison/logic/bit ops are exactly the operator named by asm.yml's stack_out expression on (a, b) in that order with From<bool>; Add/Sub/Mul/Div/Mod are i64::checked_* with None -> error and no other integer op; Shl/Shr/ShrI have the right operand types (logical vs arithmetic) and are dominated by the 0..64 bound check; pop2 returns [below-top, top]; popN_pushM apply f to the popped words in order and push only its `?`-checked result; the error index is pc before any update; memory readers take shared references. Partial claim: data-movement ops (SwapIndex, DupFrom, Select*, Reserve, Drop, Load/Store, ranges, sets) are value-level and declined. Also decided (R5) stack effect of every fixed-arity op equals asm.yml and operands are popped, never peeked; (R6) the positions addressed by DupFrom, SwapIndex, Load, Store, Reserve, SelectRange, Drop/pop_len_words*, EqRange, EqSet/decode_set, Alloc, Free and the memory Load/Store/LoadRange/StoreRange ops as symbolic linear forms of the length and the popped operands, their bound guards as linear comparisons, the length being read after the operands are popped, and the operand wiring of step_op_memory. Each memory op and the from-words constructors succeed only under their bound (one Ok return under the bound comparison, counted failing returns).",
+  "text": "Decides the dispatch and the scalar operations, for which operator, operand order and operand type in MIR are the semantics: all 62 spec ops reach the handler of the reviewed dispatch table; comparison/logic/bit ops are exactly the operator named by asm.yml's stack_out expression on (a, b) in that order with From<bool>; Add/Sub/Mul/Div/Mod are i64::checked_* with None -> error and no other integer op; Shl/Shr/ShrI have the right operand types (logical vs arithmetic) and are dominated by the 0..64 bound check; pop2 returns [below-top, top]; popN_pushM apply f to the popped words in order and push only its `?`-checked result; the error index is pc before any update; memory readers take shared references. Partial claim: data-movement ops (SwapIndex, DupFrom, Select*, Reserve, Drop, Load/Store, ranges, sets) are value-level and declined. Also decided (R5) stack effect of every fixed-arity op equals asm.yml and operands are popped, never peeked; (R6) the positions addressed by DupFrom, SwapIndex, Load, Store, Reserve, SelectRange, Drop/pop_len_words*, EqRange, EqSet/decode_set, Alloc, Free and the memory Load/Store/LoadRange/StoreRange ops as symbolic linear forms of the length and the popped operands, their bound guards as linear comparisons, the length being read after the operands are popped, and the operand wiring of step_op_memory. Each memory op and the from-words constructors succeed only under their bound (one Ok return under the bound comparison, counted failing returns). Wiring of the ParentMemory ops: the checked Memory::load / load_range on the innermost parent memory with the popped operands in spec order.",
   "note": "tables/dispatch.json is the reviewed dispatch table of the pinned tree. asm.yml stack_out expressions are the oracle for scalar ops.",
   "technique": "static analysis: MIR match tables vs a reviewed dispatch table; return-value provenance of handler closures vs expressions parsed from asm.yml; operand-type and dominance checks",
   "design_ref": "3/C08",
@@ -52,7 +52,7 @@ CLAIMS = {
   "design_ref": "3/C02",
  },
  "C10": {
-  "text": "Decides the structural clauses of Compute: deterministic index-ordered join (rayon consumer into Vec, first error by index), the fork guarded by breadth >= 1 and depth < MAX_COMPUTE_DEPTH = 1, the child's initial state table (pc+1, parent stack clone + one guarded push of the index, fresh memory, parent-memory snapshot, cloned repeat/cache/access/op accessor, same gas limit and state), the join (one alloc of the summed child lengths dominating all stores, stores in result order at a pointer starting at the old length and advancing by each child's length, pc = max, halt = disjunction, gas = saturating sum, child error propagated first), and that the parent's stack is popped once. Partial claim: `as if run one after another` follows from C02 + these tables informally. compute fails for exactly the documented reasons (missing breadth word, breadth < 1, depth reached, child error, join error). Every capture of the child closure resolves to the parent's live state at the fork (not to an earlier snapshot).",
+  "text": "Decides the structural clauses of Compute: deterministic index-ordered join (rayon consumer into Vec, first error by index), the fork guarded by breadth >= 1 and depth < MAX_COMPUTE_DEPTH = 1, the child's initial state table (pc+1, parent stack clone + one guarded push of the index, fresh memory, parent-memory snapshot, cloned repeat/cache/access/op accessor, same gas limit and state), the join (one alloc of the summed child lengths dominating all stores, stores in result order at a pointer starting at the old length and advancing by each child's length, pc = max, halt = disjunction, gas = saturating sum, child error propagated first), and that the parent's stack is popped once. Partial claim: `as if run one after another` follows from C02 + these tables informally. compute fails for exactly the documented reasons (missing breadth word, breadth < 1, depth reached, child error, join error). Every capture of the child closure resolves to the parent's live state at the fork (not to an earlier snapshot). Children read parent memory through the checked accessors, and the join's alloc succeeds exactly while the combined length is within the limit.",
   "note": "Bounds of alloc/store are C05; gas limit handling is C07.",
   "technique": "static analysis: aggregate-field provenance table for the child Vm, dominance and def-use of the join closures, resolved rayon consumer types",
   "design_ref": "3/C10",
@@ -70,25 +70,25 @@ CLAIMS = {
   "design_ref": "3/C15",
  },
  "C17": {
-  "text": "Decides: sort-before-hash on the very slice hashed for contracts (salt last) and sets; delegation agreement of all address entry points per type down to one SHA-256 leaf with unmodified arguments; SHA-256 users are new/update(input)/finalize; encoder, size helper and decoder agree on the predicate layout - widths are read off the encoder's iterator chain and closures, the size helper's linear form must equal them, the decoder's four ranges must be 0..2, 2..2+34n, 2+34n..4+34n, 4+34n..4+34n+2m; every variable-length part is length-prefixed with constant widths (injectivity skeleton). Partial claim: injectivity of postcard and SHA-256 collision resistance are trusted. Also decided: the serde pre-hash encoding is positional and complete (every declared field written unconditionally in declaration order). The Predicate address is the hash of the encoding exactly when the predicate is encodable; the predicate decoder returns only after reading all four parts. The comparisons used for canonicalisation are the derived structural PartialEq/Eq/Ord/Hash.",
+  "text": "Decides: sort-before-hash on the very slice hashed for contracts (salt last) and sets; delegation agreement of all address entry points per type down to one SHA-256 leaf with unmodified arguments; SHA-256 users are new/update(input)/finalize; encoder, size helper and decoder agree on the predicate layout - widths are read off the encoder's iterator chain and closures, the size helper's linear form must equal them, the decoder's four ranges must be 0..2, 2..2+34n, 2+34n..4+34n, 4+34n..4+34n+2m; every variable-length part is length-prefixed with constant widths (injectivity skeleton). Partial claim: injectivity of postcard and SHA-256 collision resistance are trusted. Also decided: the serde pre-hash encoding is positional and complete (every declared field written unconditionally in declaration order). The Predicate address is the hash of the encoding exactly when the predicate is encodable; the predicate decoder returns only after reading all four parts. The comparisons used for canonicalisation are the derived structural PartialEq/Eq/Ord/Hash. Predicate::{encode,decode,encoded_size} forward their argument unchanged to the codec functions.",
   "note": "Trusted: sha2, postcard, slice::sort, derived Ord of ContentAddress.",
   "technique": "static analysis: dominance, call-graph delegation table, symbolic linear forms over MIR arithmetic compared between encoder, size helper and decoder",
   "design_ref": "3/C17",
  },
  "C03": {
-  "text": "Decides the structural clauses that make post-state reads see pre-state + all of the set's mutations: the pre/post x own/extern routing table (derived from variant names), that the first pass runs with an empty post view, that the insert loop covers every solution and mutation of the set returned by the first pass keyed by (contract, key), that the second pass is dominated by the first and given the built view, that the view forwards requests unchanged and delegates to the pre-state where nothing is proposed, that the deferral mask contains every Post* flag, the run-mode split, and that deferral is closed under descendants (fixed point). Partial claim: the overlay arithmetic is not decided. Also decided: the per-key overlay loop (a mutated key yields the mutation's value, any other key one value read from the pre-state at the same key; key advanced by next_key once per value; loop ends at num_values or the last key) and next_key's carry table.",
+  "text": "Decides the structural clauses that make post-state reads see pre-state + all of the set's mutations: the pre/post x own/extern routing table (derived from variant names), that the first pass runs with an empty post view, that the insert loop covers every solution and mutation of the set returned by the first pass keyed by (contract, key), that the second pass is dominated by the first and given the built view, that the view forwards requests unchanged and delegates to the pre-state where nothing is proposed, that the deferral mask contains every Post* flag, the run-mode split, and that deferral is closed under descendants (fixed point). Partial claim: the overlay arithmetic is not decided. Also decided: the per-key overlay loop (a mutated key yields the mutation's value, any other key one value read from the pre-state at the same key; key advanced by next_key once per value; loop ends at num_values or the last key) and next_key's carry table. The Effects flags are distinct single bits (C15-R1 re-evaluated).",
   "note": "Depends on C15 (exactness of the byte scan). Value-level clauses (next_key carry, straddling ranges, deletion) are not decided.",
   "technique": "static analysis: MIR match tables, provenance of call arguments, dominance between passes, natural-loop structure (fixed-point detection)",
   "design_ref": "3/C03",
  },
  "C11": {
-  "text": "Decides routing (view x contract) for the four key-range ops, that key and count handed to the state are exactly the popped components and the external address is the 4 popped words, that state errors are wrapped unchanged, that the module never grows memory and only pops the stack, and the layout skeleton of the writer (pair area of 2*len, [addr,len] store then value store per value, cursors advancing by 2 and len). Partial claim: the popping order on all stacks and over/under-delivery by the state are not decided. The operand readers fail only when a pop or the usize conversion fails.",
+  "text": "Decides routing (view x contract) for the four key-range ops, that key and count handed to the state are exactly the popped components and the external address is the 4 popped words, that state errors are wrapped unchanged, that the module never grows memory and only pops the stack, and the layout skeleton of the writer (pair area of 2*len, [addr,len] store then value store per value, cursors advancing by 2 and len). Partial claim: the popping order on all stacks and over/under-delivery by the state are not decided. The operand readers fail only when a pop or the usize conversion fails. write_values_to_memory fails only where a conversion, the address sum or a store fails.",
   "note": "Bounds of the stores are C05 (store_range is bounds-checked).",
   "technique": "static analysis: MIR match tables, provenance of call arguments, callee whitelists per module (frame rule), loop/def-use structure of the writer",
   "design_ref": "3/C11",
  },
  "C07": {
-  "text": "Decides the structural clauses of gas accounting on every path of Vm::exec: the op-executing call is dominated by success of checked_add(total, op_gas_cost(op)) filtered by `sum <= gas_limit.total` for the very op it executes (so an op that would exceed the limit has no effect); every definition of the running total is 0 or the payload of such a checked, limit-filtered sum, including the gas joined from compute children; no unchecked u64 arithmetic exists in essential-vm / essential-check; the checker sums with saturating_add. Partial claim: the value statement `reported gas = sum of executed costs` is decided only as this structure. Also decided: Iterator::sum/product over u64 counts as raw arithmetic; the limit captured by the compute closure is resolved to the operand the parent passes (its own parameter, or a rebuilt limit whose total derives from it); inside the arm of each node kind no path leaves without adding the node's gas. The compute gas is joined on every path through the ComputeResult arm of Vm::exec. Raw u64 operators on references (as in derive-generated Display arguments) count as raw gas arithmetic.",
+  "text": "Decides the structural clauses of gas accounting on every path of Vm::exec: the op-executing call is dominated by success of checked_add(total, op_gas_cost(op)) filtered by `sum <= gas_limit.total` for the very op it executes (so an op that would exceed the limit has no effect); every definition of the running total is 0 or the payload of such a checked, limit-filtered sum, including the gas joined from compute children; no unchecked u64 arithmetic exists in essential-vm / essential-check; the checker sums with saturating_add. Partial claim: the value statement `reported gas = sum of executed costs` is decided only as this structure. Also decided: Iterator::sum/product over u64 counts as raw arithmetic; the limit captured by the compute closure is resolved to the operand the parent passes (its own parameter, or a rebuilt limit whose total derives from it); inside the arm of each node kind no path leaves without adding the node's gas. The compute gas is joined on every path through the ComputeResult arm of Vm::exec. Raw u64 operators on references (as in derive-generated Display arguments) count as raw gas arithmetic. The joined compute gas is the sum over all children (C10-R4 re-evaluated).",
   "note": "Assumes OpGasCost is a pure function. Observation K1 (children each receive the full limit) is documented, not claimed as a violation. Termination follows informally from R1 with positive costs.",
   "technique": "static analysis: MIR dominance (check-before-use), def-use enumeration of the gas accumulator, operator/type scan for unchecked u64 arithmetic",
   "design_ref": "3/C07",
@@ -100,19 +100,19 @@ CLAIMS = {
   "design_ref": "3/C16",
  },
  "C05": {
-  "text": "Decides, for every program and operand: (a) no panic-capable construct (overflow/bounds/division Assert, panicking std call, panic!/unreachable!) is reachable from Vm::{exec,eval,..}/step_op* unless it is discharged by a structural rule or by a reviewed table line whose recorded dominating guards are re-verified on each run; an Assert(Overflow) site covers both build modes; (b) every function that can mutate the inner vector of Stack/Memory/Repeat or the parent-memory stack is enumerated and growth is only reachable under the right comparison with the right limit constant (4096/10240/4096/1). This is an exhaustive enumeration over all paths of the type-checked program, which no finite test set gives. It is a review gate: a new unguarded panic-capable site, a removed/weakened guard or a new writer is reported. Also decided: a child VM cloning the parent-memory stack is created only after the guarded depth push; the construction-time validation (C14 R1/R3) and the join arithmetic (C10 R4) that reviewed `expect`s cite are re-evaluated; reviewed panic sites may carry caller-side guards that are re-checked at every call site. The call graph includes the `?` conversions (<F as From<E>>::from); no conversion that builds OpError::Compute/StateRead is reachable from a non-compute step function.",
+  "text": "Decides, for every program and operand: (a) no panic-capable construct (overflow/bounds/division Assert, panicking std call, panic!/unreachable!) is reachable from Vm::{exec,eval,..}/step_op* unless it is discharged by a structural rule or by a reviewed table line whose recorded dominating guards are re-verified on each run; an Assert(Overflow) site covers both build modes; (b) every function that can mutate the inner vector of Stack/Memory/Repeat or the parent-memory stack is enumerated and growth is only reachable under the right comparison with the right limit constant (4096/10240/4096/1). This is an exhaustive enumeration over all paths of the type-checked program, which no finite test set gives. It is a review gate: a new unguarded panic-capable site, a removed/weakened guard or a new writer is reported. Also decided: a child VM cloning the parent-memory stack is created only after the guarded depth push; the construction-time validation (C14 R1/R3) and the join arithmetic (C10 R4) that reviewed `expect`s cite are re-evaluated; reviewed panic sites may carry caller-side guards that are re-checked at every call site. The call graph includes the `?` conversions (<F as From<E>>::from); no conversion that builds OpError::Compute/StateRead is reachable from a non-compute step function. The width of the arithmetic is part of a reviewed overflow site: the same operator at another integer width is an unreviewed site.",
   "note": "Trusted: std callees outside the panic table are total (listed in evidence); third-party crates; table reasons that rest on caller-side invariants (each marked in tables/panic_sites.json). Not decided: which error is returned; termination.",
   "technique": "static analysis: call-graph reachability + MIR panic-site enumeration with dominance-based guard discharge; who-may-write rule for bounded containers",
   "design_ref": "3/C05",
  },
  "C06": {
-  "text": "Same panic-path engine over the closure of the checker entry points, the predicate/mutation/bytecode decoders and BytecodeMapped, plus rule RA: every allocation sized by a value must be sized by a constant, the length of an existing collection, a min() with such, or a value compared against a limit. Decides totality on all inputs at the level of 'no reachable unreviewed panic site / no untrusted allocation size'. Reviewed panic sites whose reason is a caller-side fact carry `caller:` guards re-checked at every call site / closure creation. No initialiser run under OnceLock::get_or_init drives the rayon pool.",
+  "text": "Same panic-path engine over the closure of the checker entry points, the predicate/mutation/bytecode decoders and BytecodeMapped, plus rule RA: every allocation sized by a value must be sized by a constant, the length of an existing collection, a min() with such, or a value compared against a limit. Decides totality on all inputs at the level of 'no reachable unreviewed panic site / no untrusted allocation size'. Reviewed panic sites whose reason is a caller-side fact carry `caller:` guards re-checked at every call site / closure creation. No initialiser run under OnceLock::get_or_init drives the rayon pool. The width of the arithmetic is part of a reviewed overflow site.",
   "note": "Trusted as for C05. Not decided: unbounded work proportional to an operand (K5 in DESIGN.md), stack exhaustion.",
   "technique": "static analysis: call-graph reachability + MIR panic-site enumeration with dominance-based guard discharge; allocation-size provenance rule",
   "design_ref": "3/C06",
  },
  "C13": {
-  "text": "The codec is generated, table-driven code; the property reduces to agreement of finite tables which is decided exactly (about 1050 obligations): the six tables recovered from MIR (TryFrom<u8>, From<opcode> for u8 + discriminants, ToBytes + bytes iterators, ParseOp, ToOpcode, short constants) agree with asm.yml read independently and with the pinned opcode table, immediates are exactly num_arg_bytes big-endian bytes both ways, and the streaming functions add no decision. Both round-trip directions and unambiguity follow by the two-line argument recorded in the evidence. Also decided: the byte-level effects scanner (a second reader of the encoding) skips exactly num_arg_bytes after each opcode with an immediate. A short immediate is detected only by the byte iterator running dry (no size-hint or other pre-check) in every generated parse_op.",
+  "text": "The codec is generated, table-driven code; the property reduces to agreement of finite tables which is decided exactly (about 1050 obligations): the six tables recovered from MIR (TryFrom<u8>, From<opcode> for u8 + discriminants, ToBytes + bytes iterators, ParseOp, ToOpcode, short constants) agree with asm.yml read independently and with the pinned opcode table, immediates are exactly num_arg_bytes big-endian bytes both ways, and the streaming functions add no decision. Both round-trip directions and unambiguity follow by the two-line argument recorded in the evidence. Also decided: the byte-level effects scanner (a second reader of the encoding) skips exactly num_arg_bytes after each opcode with an immediate. A short immediate is detected only by the byte iterator running dry (no size-hint or other pre-check) in every generated parse_op. The generated byte iterators implement `next` only.",
   "note": "Trusted: PyYAML's reading of asm.yml; rustc's lowering of match tables; tables/opcodes_pinned.json.",
   "technique": "static analysis: table extraction from MIR switch/aggregate structure, cross-checked against the YAML specification and a pinned table",
   "design_ref": "3/C13",
